@@ -99,7 +99,16 @@ def lib(config):
     return d
 
 
+def _alt(config):
+    """core.py builds a module's executors a second time with VERIF_ALT_BUILD=<config> (modules with ALT_BUILD = True):
+    every request for the clang ASan configuration is answered with that configuration instead (gcc -O0 by default:
+    the way the repository's own Makefile compiles).  A quarter of the Hypothesis workers use those executors."""
+    alt = os.environ.get("VERIF_ALT_BUILD")
+    return alt if (alt and config == "asan") else config
+
+
 def executor(config, name, extra_cflags=(), extra_ldflags=(), sources=None):
+    config = _alt(config)
     """Build harness/<name>.c against the given library config; return the binary path."""
     d = lib(config)
     cc, flags = CONFIGS[config]
